@@ -391,7 +391,8 @@ impl KeyWorld {
         let mut out = Vec::with_capacity(keys.len() * 5);
         let t = self.now;
         let name = if twin { twin_name(self.names[ci]) } else { self.names[ci] };
-        let owned = !twin;
+        // a crash inside a sweep is this property's business only if it observes the answers
+        let owned = !twin && self.cfg.has(O_KPRED | O_KGET | O_TORN | O_TWIN);
         let cfg = self.cfg.clone();
         for q in keys {
             let pid = self.fresh_id();
